@@ -1,19 +1,19 @@
-\* exhaustive model: palette glyph sets, every padding / loca version, API calls
+\* generation (R binding): call histories Decode, then 3 of Fix / Put / Components / Encode / Decode
 CONSTANTS
-  Kind = "set"
+  Kind = "ops"
   Salt = 1
   MaxRuns = 0
   MaxComps = 0
-  MaxGlyphs = 2
+  MaxGlyphs = 0
   MaxSteps = 4
   FinishFull = TRUE
   With256 = FALSE
   Targets = {}
 INIT Init
 NEXT Next
-VIEW view
 INVARIANT EncodeDecode
 INVARIANT LocaInv
 INVARIANT RoundTrip
 INVARIANT FixInv
+INVARIANT EmitOps
 CHECK_DEADLOCK FALSE
